@@ -8,7 +8,8 @@ connections) by any sequence of enabled actions -/
 inductive Reachable (v : Variant) : State → Prop where
   | init (heads : List Nat) (best : Option Nat) (targets : List Nat) (pubs : List (Nat × Nat))
       (strategy : PoolSelect.Strategy) (rtts : List Int)
-      (hp : ∀ p ∈ pubs, p.1 < heads.length ∧ p.2 < 2 ^ 32) (hh : ∀ h ∈ heads, h < 2 ^ 32) :
+      (hp : ∀ p ∈ pubs, p.1 < heads.length ∧ p.2 < 2 ^ 32) (hh : ∀ h ∈ heads, h < 2 ^ 32)
+      (hb : ∀ c, best = some c → c < heads.length) :
       Reachable v (mkInit heads best targets pubs strategy rtts)
   | step {s s' : State} {a : Action} : Reachable v s → step v s a = some s' → Reachable v s'
 
@@ -128,7 +129,7 @@ theorem invA_init (heads best targets pubs st rtts) : InvA (mkInit heads best ta
 
 theorem reachable_invA {v s} (h : Reachable v s) : InvA s := by
   induction h with
-  | init heads best targets pubs st rtts hp hh => exact invA_init ..
+  | init heads best targets pubs st rtts hp hh hb => exact invA_init ..
   | step _ hs ih => exact invA_step ih hs
 
 end Tongo.PoolSM
